@@ -861,7 +861,10 @@ def builtin(it, name, args, kwargs, fr, node):
         for x in vals[1:]:
             c = it.facts.compare(x.p, "<" if name == "min" else ">", best.p)
             if c is None:
-                raise Unmodelled(f"{name} of incomparable symbolic integers")
+                if not (isinstance(x, VInt) and isinstance(best, VInt)):
+                    raise Unmodelled(f"{name} of incomparable symbolic values")
+                # run-time integers (a rank cap against a selected rank): both orders are explored
+                c = it.truth(VBool(None, f"{it.facts.norm(x.p)!r} {'<' if name == 'min' else '>'} {it.facts.norm(best.p)!r}", None, None))
             if c:
                 best = x
         return best
@@ -1060,6 +1063,9 @@ def torch_function(it, dotted, last, args, kwargs, node):
         if isinstance(args[1], VIndexSeq):
             raise Unmodelled("symbolic permutation")
         return VTensor(args[0].dense().permute(_int_list(it, args[1])), args[0].dtype)
+    if last == "diag" and len(args) == 1 and isinstance(args[0], VTensor) and args[0].dense().ndim() == 1:
+        v = args[0].dense()
+        return VTensor(net.einsum(sp, "i,ij->ij", [v, net.eye_tensor(sp, v.axis_size(0))]), args[0].dtype)
     if last in ("bmm", "mm", "matmul") and len(args) == 2 and all(isinstance(a, VTensor) for a in args):
         a, b = args[0].dense(), args[1].dense()
         if last in ("mm", "matmul") and a.ndim() == 2 and b.ndim() == 2:
